@@ -123,20 +123,21 @@ Proof.
   pose proof (guards_total (r_guards x)) as GT. unfold nR, nU, nW, nT, nH in *. split; lia.
 Qed.
 
+Lemma isk_eval k k' a : isk k (k', a) = if gkind_eqb k' k then 1 else 0.
+Proof. reflexivity. Qed.
 Ltac gsum3 L v' :=
   let A := fresh "SR" in let B := fresh "SU" in let C := fresh "SW" in
   pose proof (asum_aupdate (isk GR) _ _ v' _ L) as A;
   pose proof (asum_aupdate (isk GU) _ _ v' _ L) as B;
   pose proof (asum_aupdate (isk GW) _ _ v' _ L) as C;
-  unfold isk in A, B, C; cbn [fst gkind_eqb] in A, B, C.
+  rewrite !isk_eval in A, B, C; cbn [gkind_eqb] in A, B, C.
 Ltac grem3 L :=
   let A := fresh "SR" in let B := fresh "SU" in let C := fresh "SW" in
   pose proof (asum_aremove (isk GR) _ _ _ L) as A;
   pose proof (asum_aremove (isk GU) _ _ _ L) as B;
   pose proof (asum_aremove (isk GW) _ _ _ L) as C;
-  unfold isk in A, B, C; cbn [fst gkind_eqb] in A, B, C.
-Ltac gapp :=
-  unfold nR, nU, nW; cbn [r_guards r_upd r_bump_g r_bump_f r_inc r_dec]; rewrite ?asum_app; cbn [asum]; unfold isk; cbn [fst gkind_eqb].
+  rewrite !isk_eval in A, B, C; cbn [gkind_eqb] in A, B, C.
+Ltac gapp := rewrite ?asum_app; cbn [asum]; rewrite ?isk_eval; cbn [gkind_eqb].
 
 Lemma step_start x k arc : RInv x -> RInv (fst (rstep_core x (RStart k arc))).
 Proof.
@@ -144,10 +145,10 @@ Proof.
   destruct (Nat.eqb (r_handles x) 0); [exact I|]. cbn [fst]. apply RInv_bump_f.
   destruct I as (E1 & E0 & Le & Ex & F). unfold RInv, nR, nU, nW, nH, nT in *. cbn [r_sh r_futs r_guards r_upd].
   rewrite !asum_app. cbn [asum].
-  destruct k; unfold fhold, itick; cbn [rf_st hold_ws wtick lticket lock_new];
+  destruct k; unfold fhold, itick in *; cbn [rf_st hold_ws wtick lticket lock_new];
     (split; [lia|]; split; [lia|]; split; [lia|]; split; [exact Ex|];
      apply Forall_app; split; [exact F|]; constructor; [|constructor]; unfold fut_ok; cbn; auto).
-  split; [exact I0 | discriminate].
+  split; [exact I | discriminate].
 Qed.
 
 Lemma step_upgrade x g : RInv x -> small x -> RInv (fst (rstep_core x (RUpgrade g))).
@@ -159,7 +160,7 @@ Proof.
   assert (U1 : 1 <= nU x) by (unfold nU; lia).
   destruct (upgrade_start_spec (r_sh x)) as (A1 & A0); [rewrite E1; lia | lia |].
   unfold RInv, nR, nU, nW, nH, nT in *. cbn [r_sh r_futs r_guards r_upd].
-  rewrite !asum_app. cbn [asum]. unfold fhold at 2, itick at 2. cbn [rf_st].
+  rewrite !asum_app. cbn [asum]. unfold fhold, itick in *. cbn [rf_st].
   rewrite A1, A0. split; [lia|]. split; [lia|]. split; [lia|]. split; [intro; lia|].
   apply Forall_app; split; [exact F|]. constructor; [|constructor]. unfold fut_ok; cbn. reflexivity.
 Qed.
